@@ -21,6 +21,15 @@
     run; `wrapBuilds`: every wrapper accepts the next one as its only child).  Each yields a schema-valid document (C01)
     that keeps the text and leaf nodes.  Helpers: Proofs/Level.lean, LevelReplace.lean, ContentBetween.lean,
     SplitSuccess.lean, JoinSuccess.lean, LiftSuccess.lean, LiftSplit.lean, WrapSuccess.lean.
+  * **an approved insertion succeeds** (`insert_point`, `drop_point`, `join_point`; section INSERT below):
+    `insertPoint_insert_applies` (`insertGuard`: the answer is a child boundary and its parent allows the node's marks;
+    `TextStable`): `tr.insert(p, n)` plans `ReplaceStep(p, p, Slice([n], 0, 0))` (`fits_trivially`), the step applies, the
+    result is valid; `dropPoint_drop_applies_closed` (closed slice answered by the first pass, `dropGuard`, `TextStable`):
+    the same for `tr.replace(p, p, slice)`; `dropPoint_drop_applies_partial` (open slices / second pass: through the Fitter,
+    only validity of an applied step); `joinPoint_canJoin` (a join point is a position `can_join` approves, `dir ≠ 0`) and
+    `joinPoint_join_applies`.  Counterexamples `insertPoint_needs_guard_marks/_text`, `dropPoint_needs_guard`,
+    `joinPoint_needs_guard`.  Helpers: Proofs/InsertSuccess.lean, ResolveBoundary.lean, JoinPointSuccess.lean;
+    guards in PM/InsertGuard.lean; tie: Driver/ExtIns.lean.
   Helpers: Proofs/Respects.lean, Proofs/StructEdit.lean, Proofs/Structure2.lean.
 -/
 import PM.Monitor
@@ -35,6 +44,8 @@ import Proofs.JoinSuccess
 import Proofs.WrapSuccess
 import Proofs.LiftSuccess
 import Proofs.LiftSplit
+import Proofs.InsertSuccess
+import Proofs.JoinPointSuccess
 namespace PM.C12
 open PM
 
@@ -1176,5 +1187,268 @@ example : liftGuard liftNestSchema liftNestDoc 5 9 3 1 = false := by rfl
 example : liftGuard exSchema liftDoc 2 3 1 0 = true ∧ liftGuard lift2Schema lift2Doc 3 4 2 0 = true := ⟨rfl, rfl⟩
 
 /-! ### LIFT-END -/
+
+/-! ### INSERT-BEGIN -/
+
+/-! ### an approved insertion applies: `insert_point`
+
+    The real edit is `tr.insert(p, n)` → `replace_with(p, p, n)` → `replace(p, p, Slice(Fragment(n), 0, 0))` →
+    `replace_step` → `fits_trivially` → `ReplaceStep(p, p, slice)`.  The unguarded statement
+      `insertPoint S doc pos ty = some (some p) → S.tyOf n = ty → ∃ doc', S.apply (.replace p p ⟨[n], 0, 0⟩ false) doc = .ok doc'`
+    is **false** for the model and for the code alike (upstream too), in two ways (`insertGuard`, PM/InsertGuard.lean):
+    (a) `insert_point` tests `can_replace_with(index, index, type)` without marks; the insertion re-validates the
+        parent's content, marks included (`insMarkSchema` below: a marked paragraph into `doc`);
+    (b) when `pos` is strictly inside a text child and the parent approves, `insert_point` returns `pos` itself; the test
+        read "`n` in front of that text", the insertion puts `n` between its two halves (`insTextSchema` below: content
+        `image? text* image`).  Inside a text child of a `text*` / `inline*` parent the insertion does succeed; the
+        theorem below does not cover that case (its weakest guard there would be
+        `parent.can_replace(index + 1, index + 1, [n, text])`; not proved: the replace lemma for a cut text child). -/
+
+private theorem fnorm_single (n : Node) (h : n.norm = true) : fnorm [n] = true := by
+  simp [fnorm, fnormKids, chainOk, h]
+
+/-- **`insert_point` answers `p` ∧ `insertGuard` ∧ `TextStable` ⇒ `tr.insert(p, n)` plans exactly
+    `ReplaceStep(p, p, Slice([n], 0, 0))` (it fits trivially), the step applies and the result is schema-valid**, for
+    every valid normal-form node `n` of the given type.  (`TextStable`: a text node `n` merges with its neighbours.) -/
+theorem insertPoint_insert_applies (S : Schema) (hts : C01.TextStable S) (doc : Node) (pos : Nat) (ty : TypeId)
+    (p : Nat) (n : Node) (hdoc : C01.IsElem doc) (hv : C01.Valid S doc) (hn : fnorm doc.kids = true)
+    (hvn : S.checkNode n = true) (hnn : n.norm = true) (hty : S.tyOf n = ty)
+    (hg : insertGuard S doc p n = true)
+    (hc : insertPoint S doc pos ty = some (some p)) :
+    replaceStep S doc p p ⟨[n], 0, 0⟩ = .ok (some (.replace p p ⟨[n], 0, 0⟩ false)) ∧
+    ∃ doc', S.apply (.replace p p ⟨[n], 0, 0⟩ false) doc = .ok doc' ∧ C01.Valid S doc' := by
+  unfold insertPoint at hc
+  cases hr : doc.resolve pos with
+  | none => simp [hr] at hc
+  | some r =>
+    simp only [hr] at hc
+    have R := resolve_resolved hr
+    cases doc with
+    | text s m => simp [C01.IsElem, Node.isLeaf] at hdoc
+    | leaf t a m => simp [C01.IsElem, Node.isLeaf] at hdoc
+    | elem ty0 a0 m0 K =>
+      have hn' : fnorm K = true := by simpa [Node.kids] using hn
+      -- where the answer lies
+      have hat : ∃ d sd i, (d < r.depth ∨ r.textOffset = 0) ∧ AtBoundary r d sd i p ∧
+          S.nodeCanReplaceWith (r.node d) i i ty = some true := by
+        rcases insertPointR_spec S r ty p hc with ⟨hp, hcr⟩ | ⟨d, sd, i, hd, hat, hcr⟩
+        · refine ⟨r.depth, .before, r.index r.depth, .inr ?_, ⟨Nat.le_refl _, rfl, by rw [hp]; exact before_innermost r⟩, hcr⟩
+          rw [hp, R.pos_eq] at hg
+          simp only [insertGuard, hr, Bool.and_eq_true, beq_iff_eq] at hg
+          exact hg.1
+        · exact ⟨d, sd, i, .inl hd, hat, hcr⟩
+      obtain ⟨d, sd, i, hb, hat, hcr⟩ := hat
+      obtain ⟨rp, hrp, htyp, _, _, _⟩ := boundary_resolve S hr hn' d sd i p hb hat
+      simp only [insertGuard, hrp, Bool.and_eq_true] at hg
+      rw [htyp] at hg
+      have hcr' : S.nodeCanReplace (r.node d) i i [n] = some true := by
+        unfold Schema.nodeCanReplaceWith at hcr
+        unfold Schema.nodeCanReplace
+        split at hcr
+        · simp at hcr
+        · rename_i hlen
+          rw [if_neg hlen]
+          exact canReplace_of_with S _ _ i i n ty hty hg.2 hcr
+      have hnC := fnorm_single n hnn
+      obtain ⟨doc', hap⟩ := boundary_insert_applies S hts ty0 a0 m0 K pos r hr hv hn' d sd i p hb hat [n] hnC hcr'
+      have hft := boundary_fitsTrivially S hr hn' d sd i p hb hat [n]
+      rw [hcr'] at hft
+      have hpos := Node.size_pos_of_norm n hnn
+      refine ⟨replaceStep_trivial S _ p p _ (by simp [Slice.size]; omega) hft, doc', hap, ?_⟩
+      exact C01.apply_valid S _ _ doc' hv (by simp [C01.PayloadValid, openValid, rightOpenValid, hvn]) hap
+
+/-- a non-trivial instance of all hypotheses: a blockquote for position 2 of `exDoc` (start of the first paragraph) goes
+    in front of that paragraph, at position 1 -/
+example : ∃ doc', exSchema.apply (.replace 1 1 ⟨[.elem 1 [] [] [.elem 2 [] [] []]], 0, 0⟩ false) exDoc = .ok doc' ∧
+    C01.Valid exSchema doc' :=
+  (insertPoint_insert_applies exSchema ex_stable exDoc 2 1 1 (.elem 1 [] [] [.elem 2 [] [] []]) rfl rfl rfl rfl rfl rfl
+    rfl rfl).2
+example : insertGuard exSchema exDoc 1 (.elem 1 [] [] [.elem 2 [] [] []]) = true := by rfl
+
+/-- the guard is needed, (a): `doc: block+` (no marks allowed on its children), a paragraph carrying `em` -/
+private def insMarkSchema : Schema :=
+  { nodes := #[{ exNT "doc" false false blocksDfa with markSet := some [] }, exNT "blockquote" false false blocksDfa,
+      exNT "paragraph" false true #[⟨true, [(3, 0)]⟩], exNT "text" true false #[⟨true, []⟩]],
+    marks := #[⟨"em", [0], true, []⟩], top := 0, textTy := 3 }
+example : C01.Valid insMarkSchema exDoc := by rfl
+example : insMarkSchema.checkNode (.elem 2 [] [⟨0, []⟩] []) = true := by rfl
+/-- the helper approves a paragraph at position 0 … -/
+example : insertPoint insMarkSchema exDoc 0 2 = some (some 0) := by rfl
+/-- … the guard does not hold for the marked paragraph … -/
+example : insertGuard insMarkSchema exDoc 0 (.elem 2 [] [⟨0, []⟩] []) = false := by rfl
+/-- … and the insertion is refused (`Invalid content for node doc`) -/
+theorem insertPoint_needs_guard_marks :
+    insMarkSchema.apply (.replace 0 0 ⟨[.elem 2 [] [⟨0, []⟩] []], 0, 0⟩ false) exDoc = .error .failed := by
+  have hv : insMarkSchema.validContent 0 [.elem 2 [] [⟨0, []⟩] [],
+      .elem 1 [] [] [.elem 2 [] [] [.text [97] []], .elem 2 [] [] [.text [98] []]]] = false := by decide
+  simp [Schema.apply, Schema.fromReplace, Schema.replace, exDoc, replaceKids,
+    inRange, depthAt, Slice.wf, spineL, spineR, outer, atLevel, fcut, fcutLoop, fappend, addNode, hv, Except.map]
+
+/-- the guard is needed, (b): `p: image? text* image`; in `doc(p("ab", image))` an image is approved at position 2,
+    between "a" and "b" (`can_replace_with(0, 0, image)`: `image text image`) -/
+private def insTextSchema : Schema :=
+  { nodes := #[cexNT "doc" false #[⟨false, [(1, 1)]⟩, ⟨true, [(1, 1)]⟩],
+      cexNT "p" false #[⟨false, [(3, 1), (2, 2)]⟩, ⟨true, [(2, 2), (3, 3)]⟩, ⟨false, [(2, 2), (3, 3)]⟩, ⟨true, []⟩],
+      { cexNT "text" true #[⟨true, []⟩] with isText := true, isInline := true },
+      { cexNT "image" true #[⟨true, []⟩] with isInline := true }],
+    marks := #[], top := 0, textTy := 2 }
+example : C01.Valid insTextSchema splitCexDoc := by rfl
+example : textStableC insTextSchema = true := by decide
+example : insertPoint insTextSchema splitCexDoc 2 3 = some (some 2) := by rfl
+example : insertGuard insTextSchema splitCexDoc 2 (.leaf 3 [] []) = false := by rfl
+/-- … and the insertion is refused: `p("a", image, "b", image)` -/
+theorem insertPoint_needs_guard_text :
+    insTextSchema.apply (.replace 2 2 ⟨[.leaf 3 [] []], 0, 0⟩ false) splitCexDoc = .error .failed := by
+  have hv : insTextSchema.validContent 1 [.text [97] [], .leaf 3 [] [], .text [98] [], .leaf 3 [] []] = false := by decide
+  have c1 : cutText [97, 98] 0 1 = .ok [97] := by rfl
+  have c2 : cutText [97, 98] 1 2 = .ok [98] := by rfl
+  simp [Schema.apply, Schema.fromReplace, Schema.replace, splitCexDoc, replaceKids,
+    inRange, depthAt, Slice.wf, spineL, spineR, outer, atLevel, fcut, fcutLoop, fappend, addNode, hv, Except.map,
+    c1, c2]
+
+/-! ### an approved insertion applies: `drop_point`
+
+    `drop_point` answers in two passes.  The first asks, walking up from `pos`, `node(d).can_replace(i, i, content)` for
+    the slice's content below its open start; for a **closed** slice that is `fits_trivially` at the returned position:
+    `tr.replace(p, p, slice)` (the edit harness/props/c12.py performs) is `ReplaceStep(p, p, slice)`.  Guard
+    (`dropGuard`): `p` not strictly inside a text child (as (b) above: `dropTextCex` below).  For an open slice, or an
+    answer of the second pass (a wrapping for the first node exists), the edit goes through the Fitter:
+    `dropPoint_drop_applies_partial`. -/
+
+/-- the first pass's answer is `drop_point`'s answer -/
+theorem dropPoint_of_pass1 (S : Schema) (doc : Node) (pos : Nat) (sl : Slice) (p : Nat)
+    (hsz : fsize sl.content ≠ 0) (h : dropPointPass1 S doc pos sl = some (some p)) :
+    dropPoint S doc pos sl = some (some p) := by
+  unfold dropPointPass1 at h
+  unfold dropPoint
+  cases hr : doc.resolve pos with
+  | none => simp [hr] at h
+  | some r =>
+    simp only [hr] at h ⊢
+    unfold dropPointR
+    rw [if_neg hsz]
+    cases hc : dropContent sl.openStart sl.content with
+    | none => simp [hc] at h
+    | some c =>
+      simp only [hc] at h ⊢
+      rw [h]
+
+/-- **the first pass of `drop_point` answers `p` for a closed slice ∧ `dropGuard` ∧ `TextStable` ⇒ `tr.replace(p, p, slice)`
+    plans exactly `ReplaceStep(p, p, slice)`, the step applies and the result is schema-valid** (valid normal-form
+    document; the slice's content valid and in normal form) -/
+theorem dropPoint_drop_applies_closed (S : Schema) (hts : C01.TextStable S) (doc : Node) (pos : Nat) (C : List Node)
+    (p : Nat) (hdoc : C01.IsElem doc) (hv : C01.Valid S doc) (hn : fnorm doc.kids = true)
+    (hvC : S.checkKids C = true) (hnC : fnorm C = true) (hsz : fsize C ≠ 0)
+    (hg : dropGuard doc p = true)
+    (hc : dropPointPass1 S doc pos ⟨C, 0, 0⟩ = some (some p)) :
+    dropPoint S doc pos ⟨C, 0, 0⟩ = some (some p) ∧
+    replaceStep S doc p p ⟨C, 0, 0⟩ = .ok (some (.replace p p ⟨C, 0, 0⟩ false)) ∧
+    ∃ doc', S.apply (.replace p p ⟨C, 0, 0⟩ false) doc = .ok doc' ∧ C01.Valid S doc' := by
+  refine ⟨dropPoint_of_pass1 S doc pos _ p hsz hc, ?_⟩
+  unfold dropPointPass1 at hc
+  cases hr : doc.resolve pos with
+  | none => simp [hr] at hc
+  | some r =>
+    simp only [hr, dropContent] at hc
+    have R := resolve_resolved hr
+    cases doc with
+    | text s m => simp [C01.IsElem, Node.isLeaf] at hdoc
+    | leaf t a m => simp [C01.IsElem, Node.isLeaf] at hdoc
+    | elem ty0 a0 m0 K =>
+      have hn' : fnorm K = true := by simpa [Node.kids] using hn
+      obtain ⟨d, sd, i, hd, hcase, hat, hcr⟩ := dropLoop_spec S r C (r.depth + 1) p (Nat.le_refl _) hc
+      have hb : d < r.depth ∨ r.textOffset = 0 := by
+        rcases hcase with h | h
+        · exact .inl h
+        · rw [h, R.pos_eq] at hg
+          simp only [dropGuard, hr, beq_iff_eq] at hg
+          exact .inr hg
+      obtain ⟨doc', hap⟩ := boundary_insert_applies S hts ty0 a0 m0 K pos r hr hv hn' d sd i p hb hat C hnC hcr
+      have hft := boundary_fitsTrivially S hr hn' d sd i p hb hat C
+      rw [hcr] at hft
+      refine ⟨replaceStep_trivial S _ p p _ (by simp [Slice.size]; omega) hft, doc', hap, ?_⟩
+      exact C01.apply_valid S _ _ doc' hv (by simp [C01.PayloadValid, openValid, rightOpenValid, hvC]) hap
+
+/-- a non-trivial instance of all hypotheses: `blockquote(p)` dropped at position 2 of `exDoc` goes to position 1 -/
+example : dropPoint exSchema exDoc 2 ⟨[.elem 1 [] [] [.elem 2 [] [] []]], 0, 0⟩ = some (some 1) ∧
+    replaceStep exSchema exDoc 1 1 ⟨[.elem 1 [] [] [.elem 2 [] [] []]], 0, 0⟩
+      = .ok (some (.replace 1 1 ⟨[.elem 1 [] [] [.elem 2 [] [] []]], 0, 0⟩ false)) ∧
+    ∃ doc', exSchema.apply (.replace 1 1 ⟨[.elem 1 [] [] [.elem 2 [] [] []]], 0, 0⟩ false) exDoc = .ok doc' ∧
+      C01.Valid exSchema doc' :=
+  dropPoint_drop_applies_closed exSchema ex_stable exDoc 2 [.elem 1 [] [] [.elem 2 [] [] []]] 1 rfl rfl rfl rfl rfl
+    (by decide) rfl rfl
+
+/-- the guard is needed: in `insTextSchema`, `doc(p("ab", image))`, the closed slice `[image]` dropped at position 2 -/
+example : dropPointPass1 insTextSchema splitCexDoc 2 ⟨[.leaf 3 [] []], 0, 0⟩ = some (some 2) := by rfl
+example : dropGuard splitCexDoc 2 = false := by rfl
+/-- (the refused step is `insertPoint_needs_guard_text`) -/
+theorem dropPoint_needs_guard :
+    dropPoint insTextSchema splitCexDoc 2 ⟨[.leaf 3 [] []], 0, 0⟩ = some (some 2) ∧
+    insTextSchema.apply (.replace 2 2 ⟨[.leaf 3 [] []], 0, 0⟩ false) splitCexDoc = .error .failed :=
+  ⟨rfl, insertPoint_needs_guard_text⟩
+
+/-- **partial**: for an open slice, or an answer of `drop_point`'s second pass, `tr.replace(p, p, slice)` goes through
+    the Fitter.  Proved: whatever step the Fitter plans, if its payload is valid and it applies, the result is valid
+    (C01).  **Missing** (full statement:
+      `dropPoint S doc pos sl = some (some p) → ∃ st doc', replaceStep S doc p p sl = .ok (some st) ∧
+         S.apply st doc = .ok doc' ∧ C01.Valid S doc'`):
+    that the Fitter returns a step at the drop point and that this step applies — there is no success theorem for the
+    Fitter (Props/C11.lean has termination, range, content preservation), and the statement is false without a guard
+    excluding the open finding C12-fitter-partial-node (`Slice.noPartialNode`, PM/Fitter.lean: an open slice whose
+    open node cannot be completed at the target).  The tie (harness/props/c12.py) checks the full statement on the real
+    code for bundled schemas. -/
+theorem dropPoint_drop_applies_partial (S : Schema) (doc doc' : Node) (pos : Nat) (sl : Slice) (p : Nat) (st : Step)
+    (hv : C01.Valid S doc) (_hc : dropPoint S doc pos sl = some (some p))
+    (_hfit : replaceStep S doc p p sl = .ok (some st)) (hpay : C01.PayloadValid S doc st)
+    (hap : S.apply st doc = .ok doc') : C01.Valid S doc' :=
+  C01.apply_valid S st doc doc' hv hpay hap
+
+/-! ### a join point is joinable: `join_point`
+
+    `join_point(doc, pos, dir)` runs, at `pos` and then at the boundary before (`dir < 0`) / after (`dir > 0`) each
+    ancestor of `pos`, the test of `can_join` plus "the node before is not a textblock".  So its answer is a position
+    `can_join` approves, and `canJoin_join_applies` takes over (same guards: `joinGuard`, `TextStable`).
+    `dir ≠ 0`: with `dir = 0` the code looks at the boundary *before* the ancestor and answers the position *after* it. -/
+
+/-- **`join_point` answers `p` ⇒ `can_join(doc, p)` is `True`** -/
+theorem joinPoint_canJoin (S : Schema) (doc : Node) (pos : Nat) (dir : Int) (p : Nat) (hdoc : C01.IsElem doc)
+    (hn : fnorm doc.kids = true) (hdir : dir ≠ 0)
+    (hc : joinPoint S doc pos dir = some (some p)) : canJoin S doc p = some (some true) := by
+  unfold joinPoint at hc
+  cases hr : doc.resolve pos with
+  | none => simp [hr] at hc
+  | some r =>
+    simp only [hr] at hc
+    cases doc with
+    | text s m => simp [C01.IsElem, Node.isLeaf] at hdoc
+    | leaf t a m => simp [C01.IsElem, Node.isLeaf] at hdoc
+    | elem ty0 a0 m0 K =>
+      exact joinPointLoop_canJoin S hr (by simpa [Node.kids] using hn) dir hdir r.depth pos p (Nat.le_refl _)
+        (fun _ => rfl) (fun h => absurd h (Nat.lt_irrefl _)) hc
+
+/-- **`join_point` answers `p` ∧ `joinGuard` at `p` ∧ `TextStable` ⇒ `join(p)` succeeds** with a schema-valid document
+    that keeps the text and leaf nodes -/
+theorem joinPoint_join_applies (S : Schema) (hts : C01.TextStable S) (doc : Node) (pos : Nat) (dir : Int) (p : Nat)
+    (st : Step) (hdoc : C01.IsElem doc) (hv : C01.Valid S doc) (hn : fnorm doc.kids = true) (hdir : dir ≠ 0)
+    (hg : joinGuard S doc p = true)
+    (hc : joinPoint S doc pos dir = some (some p)) (hb : joinStep p 1 = .ok st) :
+    ∃ doc', S.apply st doc = .ok doc' ∧ C01.Valid S doc' ∧
+      (ftoks doc'.kids).filter Tok.isContent = (ftoks doc.kids).filter Tok.isContent :=
+  canJoin_join_applies S hts doc p st hv hn hg (joinPoint_canJoin S doc pos dir p hdoc hn hdir hc) hb
+
+/-- a non-trivial instance: from inside the second blockquote of `exDoc2` the join point to the left is 5 -/
+example : ∃ doc', exSchema.apply (.replace 4 6 Slice.empty true) exDoc2 = .ok doc' ∧ C01.Valid exSchema doc' ∧
+    (ftoks doc'.kids).filter Tok.isContent = (ftoks exDoc2.kids).filter Tok.isContent :=
+  joinPoint_join_applies exSchema ex_stable exDoc2 7 (-1) 5 _ rfl rfl rfl (by decide) rfl rfl rfl
+/-- the guard is needed: in `cexSchema` (above) `join_point` answers 3, `joinGuard` fails and `join(3)` is refused
+    ("Cannot join B onto A") -/
+theorem joinPoint_needs_guard : joinPoint cexSchema cexDoc 3 (-1) = some (some 3) ∧ joinGuard cexSchema cexDoc 3 = false ∧
+    cexSchema.compatibleContent 2 1 = false := ⟨rfl, rfl, rfl⟩
+/-- `dir ≠ 0` is needed: with `dir = 0` the code tests the boundary *before* each ancestor and answers the position
+    *after* it; from inside the second blockquote of `exDoc2` it answers 10 (the end of the document), where `can_join`
+    says `None` -/
+example : joinPoint exSchema exDoc2 7 0 = some (some 10) ∧ canJoin exSchema exDoc2 10 = some none := ⟨rfl, rfl⟩
+
+/-! ### INSERT-END -/
 
 end PM.C12
